@@ -28,3 +28,30 @@ Theorem preprocess_set_semantics : forall na refs f f', (forall r, In r f <-> In
   forall r, In r (preprocess na refs f) <-> In r (preprocess na refs f').
 Proof. exact preprocess_same_rows. Qed.
 Print Assumptions preprocess_set_semantics.
+
+(* AT DOCUMENT LEVEL (plain triples maps, no joins): every statement of the document comes from ONE row of the table of its triples
+   map; the result over the union of two row sets is the union of the results; only the SET of rows of every table matters (order and
+   repeated rows are irrelevant) -- for the generation rules and, through the end-to-end theorem of C01, for the engine *)
+From Morph Require Import Model.Mapping Model.Spec Model.Fragment Proofs.TermP Proofs.RowSpecP Proofs.DocEngineP Proofs.DocRowsP.
+Theorem document_statement_has_one_row : forall scfg fe d tables, forallb plain_tm d = true ->
+  forall x, In x (spec_lines scfg fe d tables) <->
+            exists t sr, In t d /\ asserted t = true /\ In sr (tables (t_src t)) /\ In x (tm_row_lines scfg fe d (fun _ => []) t sr).
+Proof. exact plain_document_statement_has_one_row. Qed.
+Print Assumptions document_statement_has_one_row.
+Theorem document_additive_in_rows : forall scfg fe d t1 t2, forallb plain_tm d = true ->
+  forall x, In x (spec_lines scfg fe d (fun src => t1 src ++ t2 src)) <-> In x (spec_lines scfg fe d t1) \/ In x (spec_lines scfg fe d t2).
+Proof. exact plain_document_additive_in_rows. Qed.
+Print Assumptions document_additive_in_rows.
+Theorem document_depends_on_row_sets_only : forall scfg fe d t1 t2, forallb plain_tm d = true -> (forall src sr, In sr (t1 src) <-> In sr (t2 src)) ->
+  forall x, In x (spec_lines scfg fe d t1) <-> In x (spec_lines scfg fe d t2).
+Proof. exact plain_document_depends_on_row_sets. Qed.
+Print Assumptions document_depends_on_row_sets_only.
+Theorem engine_document_additive_in_rows : forall cfg fe scfg raw1 raw2 d rules l1 l2 l12,
+  cfg_agree cfg scfg -> c_nquads cfg = s_nquads scfg -> s_na scfg = c_na cfg ->
+  forallb plain_tm d = true -> normalise d = Ok rules -> (forall rl, In rl rules -> simple_rule rl) ->
+  (forall raw rl rw n, In raw [raw1; raw2] -> In rl rules -> In rw (raw (r_src rl)) -> In n (rule_names rl) -> assoc n rw <> None) ->
+  materialize_rules cfg fe rules (delivered cfg raw1) = Ok l1 -> materialize_rules cfg fe rules (delivered cfg raw2) = Ok l2 ->
+  materialize_rules cfg fe rules (delivered cfg (fun src => raw1 src ++ raw2 src)) = Ok l12 ->
+  forall x, In x l12 <-> In x l1 \/ In x l2.
+Proof. exact engine_plain_document_additive_in_rows. Qed.
+Print Assumptions engine_document_additive_in_rows.
